@@ -197,6 +197,112 @@ def extract_block(func, must_contain):
     return best
 
 
+def extract_if(func, must_contain):
+    """the innermost `if` statement of `func` whose source contains all snippets"""
+    src = textwrap.dedent(inspect.getsource(func))
+    tree = ast.parse(src)
+    best = None
+    for node in ast.walk(tree):
+        if isinstance(node, ast.If):
+            text = ast.get_source_segment(src, node)
+            if all(m in text for m in must_contain):
+                if best is None or len(text) < len(best[1]):
+                    best = (node, text)
+    assert best is not None, 'if statement not found: %r' % (must_contain,)
+    return best
+
+
+class SymTimeArg(SInt):
+    """a requested checkpoint time: an int proxy that also records how it is formatted into a file name"""
+    __slots__ = ()
+
+    def __format__(self, spec):
+        return '\x00T%d:%s\x00' % (id(self) % 10 ** 9, spec)
+
+
+def requested_item(item):
+    """Grid.loadFromFile(folder, time=<requested>): the checkpoint opened must be the requested one (time 0 included)"""
+    nfiles, = item
+    res = H.worker_result()
+    H.install_fake_mpi()
+    gridmod = H.repo_import('pygyro.model.grid')
+    symx.set_bv(None)
+    fmt = writer_format(gridmod)
+    node, text = extract_if(gridmod.Grid.loadFromFile, ['glob(', 'max(list_of_files', 'else'])
+    code = compile(ast.Module(body=[node], type_ignores=[]), '<loadFromFile selection>', 'exec')
+    st = {}
+
+    def body(ctx):
+        ts = [z3.Int('t%d' % i) for i in range(nfiles)]
+        for t in ts:
+            ctx.assume(z3.And(t >= 0, t < 10 ** MAXD))
+        ctx.assume(z3.Distinct(*ts))
+        req = z3.Int('requested')
+        ctx.assume(z3.Or([req == t for t in ts]))
+        names = []
+        for t in ts:
+            stime = SymTime(t)
+            names.append(SymName.from_format(eval(fmt, dict(foldername='run', nameConvention='grid', time=stime)), stime))
+        st.update(ts=ts, req=req)
+
+        class OS:
+            class path:
+                exists = staticmethod(lambda f: True)
+        env = dict(glob=lambda pattern: list(names), max=max, len=len, int=sym_int, foldername='run', nameConvention='grid', os=OS,
+                   time=SymTimeArg(req))
+        exec(code, env)
+        return env['filename']
+
+    for ctx, (kind, val) in symx.explore(body, timeout_ms=30000):
+        if kind != 'ok':
+            if kind == 'abort' and not val.inconclusive:
+                continue
+            res['inconclusive'].append('requested-time selection: %s %r' % (kind, val))
+            continue
+        res['obligations'] += 1
+        if isinstance(val, str):
+            ok = '\x00T' in val           # the name was built from the requested time by the writer's format
+            if ok:
+                res['discharged'] += 1
+                res['nontrivial'].append('requested|%d|%s' % (nfiles, ''.join('T' if d['choice'] else 'F' for d in ctx.decisions)))
+            else:
+                res['inconclusive'].append('file name %r does not contain the requested time' % val)
+            continue
+        # a SymName: the code fell back to "latest"; it must still be the requested time
+        r = ctx.check(val.t != st['req'])
+        if r == 'unsat':
+            res['discharged'] += 1
+        elif r == 'sat':
+            m = ctx.model()
+            times = [m.eval(t, model_completion=True).as_long() for t in st['ts']]
+            rq = m.eval(st['req'], model_completion=True).as_long()
+            got = replay_requested(times, rq)
+            rep = dict(kind='requested', times=times, requested=rq, opened=got)
+            if got != rq:
+                res['violations'].append(('selection:requested_time', 'loadFromFile(folder, time=%d) with checkpoints %s opens the checkpoint of t=%s' % (rq, times, got), rep))
+            else:
+                res['inconclusive'].append('requested-time model does not reproduce: %r' % rep)
+        else:
+            res['inconclusive'].append('unknown requested-time query')
+    res['stats'] = symx.GLOBAL.as_dict()
+    symx.GLOBAL.__init__()
+    return res
+
+
+def replay_requested(times, rq):
+    gridmod = H.repo_import('pygyro.model.grid')
+    fmt = writer_format(gridmod)
+    node, _ = extract_if(gridmod.Grid.loadFromFile, ['glob(', 'max(list_of_files', 'else'])
+    code = compile(ast.Module(body=[node], type_ignores=[]), '<replay>', 'exec')
+    base = os.path.join(H.VERIF, 'scratch')
+    with tempfile.TemporaryDirectory(prefix='c18_', dir=base if os.path.isdir(base) else None) as d:
+        for t in times:
+            open(eval(fmt, dict(foldername=d, nameConvention='grid', time=t)), 'w').close()
+        env = dict(glob=_glob.glob, foldername=d, nameConvention='grid', os=os, time=rq)
+        exec(code, env)
+        return int(os.path.basename(env['filename']).split('_')[-1].split('.')[0])
+
+
 def writer_format(gridmod):
     """the writer's file-name expression, taken from Grid.writeH5Dataset"""
     src = textwrap.dedent(inspect.getsource(gridmod.Grid.writeH5Dataset))
@@ -611,6 +717,8 @@ def main():
     for r in H.pmap(tiling_item, [(a, b) for a in range(1, P + 1) for b in range(1, P + 1)], run.args.jobs):
         run.merge(r)
     for r in H.pmap(selection_item, [('setupFromFile', 2), ('loadFromFile', 2)] + ([] if quick else [('setupFromFile', 3)]), run.args.jobs):
+        run.merge(r)
+    for r in H.pmap(requested_item, [(2,)] + ([] if quick else [(3,)]), run.args.jobs):
         run.merge(r)
     K, SMAX = (3, 3) if quick else (6, 4)
     ditems = [(ld, rk, K, sv) for ld in (False, True) for rk in (0, 1) for sv in range(1, SMAX + 1)]
